@@ -13,6 +13,7 @@ import (
 	"github.com/ajitpratap0/GoSQLX/pkg/gosqlx"
 	"github.com/ajitpratap0/GoSQLX/pkg/sql/ast"
 	"pgregory.net/rapid"
+	"verif/gen/lexgen"
 	"verif/gen/sqlgen"
 	"verif/internal/astdump"
 	"verif/internal/hx"
@@ -189,6 +190,14 @@ func genCase(rt *rapid.T) RTCase {
 	sort.Strings(cl)
 	nt := st.Stats["required_paren"] > 0 || st.Stats["quoted_keyword_ident"] > 0 || st.Stats["is_not_null"]+st.Stats["not_exists"]+st.Stats["not"] > 0 ||
 		st.Stats["window_frame"] > 0 || st.Stats["join_using"] > 0
+	if rapid.IntRange(0, 3).Draw(rt, "commented_layout") == 3 {
+		// the same tokens with drawn separators, line and block comments between them: the text-taking
+		// formatters carry comments over into their output
+		lx := sqlgen.Lexemes(st.Toks)
+		lf := lexgen.Features{StringStartsWithDoubledQuote: true, TrailingComment: true, Comments: true}
+		sql = lexgen.Render(lx, lexgen.GenSeps(rt, lf, lx, "l")).Src
+		cl = append(cl, "commented_input")
+	}
 	hx.Case("roundtrip", nt, ser+"|"+st.Kind+"|"+strings.Join(cl, ","), append(cl, "ser_"+ser)...)
 	hx.Sample("roundtrip", map[string]string{"serialiser": ser, "sql": sql})
 	return RTCase{SQL: sql, Serialiser: ser, Opts: genOpts(rt)}
